@@ -15,7 +15,7 @@ RULE = ("cases = (configuration, matrix) pairs enumerated by TLC: all join/meet 
         "lattice points on/off quadrics and polars, four collinear points with chosen parameters, each with 8 generating "
         "matrices (mostly non-isometries); non-trivial = dependent/skew configuration, incident pair, point on quadric, "
         "tangent hyperplane, infinite or zero cross ratio")
-INVS = ["Commutes", "IncidencePreserved", "QuadricPreserved", "CRInvariant"]
+INVS = ["Commutes", "IncidencePreserved", "QuadricPreserved", "CRInvariant", "VerticesInOrder"]
 KINDS = {"j2pp": ("join", ("point", "point")), "m2ll": ("meet", ("line", "line")), "j3pp": ("join", ("point", "point")),
          "j3ppp": ("join", ("point", "point", "point")), "j3pl": ("join", ("point", "line3")),
          "j3ll": ("join", ("line3", "line3")), "m3ee": ("meet", ("plane", "plane")),
@@ -76,6 +76,23 @@ def replay(recs):
                 if before != r["b"] or after != r["b"]:
                     out.append(dict(site=site, stratum=stratum, case=case, expected={"before": r["b"], "after": r["b"]},
                                     observed={"before": before, "after": after}))
+            elif r["t"] == "poly":
+                dim = r["d"]
+                case = {"x": r["x"], "M": r["M"]}
+                for form, fn in (("t*x", lambda x: t * x), ("t.apply(x)", lambda x: t.apply(x))):
+                    x = build_any(r["x"], dim)
+                    y = fn(x)
+                    dd = compare_any(y, r["img"])
+                    if dd is None and type(y) is not type(x):
+                        dd = f"result type {type(y).__name__} != {type(x).__name__}"
+                    if dd is None and r["x"]["k"] != "polyhedron":
+                        # the accessor returns them in the same order too
+                        vs = [np.asarray(v.array) for v in y.vertices]
+                        ev = r["img"]["v"]
+                        if len(vs) != len(ev) or not all(same_class(a, np.array(b)) for a, b in zip(vs, ev)):
+                            dd = {"vertices": [a.tolist() for a in vs]}
+                    if dd is not None:
+                        out.append(dict(site=f"{r['x']['k']}/{dim}D/{form}", stratum=stratum, case=case, expected=r["img"], observed=dd))
             elif r["t"] == "cr":
                 pts = [build("point", v) for v in r["pts"]]
                 case = {"pts": r["pts"], "M": r["M"], "cr": r["cr"]}
@@ -108,7 +125,7 @@ TIER = {"quick": dict(stride=8), "thorough": dict(stride=1)}
 
 def run(ctx: Ctx):
     t = TIER[ctx.tier]
-    tasks = ["jm", "inc2", "inc3", "incl3", "quad2", "quad3", "cr"]
+    tasks = ["jm", "inc2", "inc3", "incl3", "quad2", "quad3", "cr", "poly"]
     cfg = cfg_text(constants={"Tasks": {S(x) for x in tasks}, "Stride": t["stride"], "Seed": ctx.seed % 97, "DoDump": True},
                    invariants=INVS, constraints=["Dump"])
     r = ctx.tlc("C07_Invariance", cfg, dump=True, timeout=(300 if ctx.tier == "quick" else 3400))
@@ -117,7 +134,8 @@ def run(ctx: Ctx):
     for x in recs:
         strata[x["s"]] = strata.get(x["s"], 0) + 1
     for need in ("LinearDependence", "NotCoplanar", "incident", "not-incident", "on-quadric", "off-quadric", "tangent",
-                 "not-tangent", "cr/finite", "jm/j3ll", "jm/m3le", "jm/j3ppp", "jm/m3eee"):
+                 "not-tangent", "cr/finite", "jm/j3ll", "jm/m3le", "jm/j3ppp", "jm/m3eee", "polytope/polygon/orientation-reversing",
+                 "polytope/segment/orientation-preserving", "polytope/polyhedron/orientation-preserving"):
         if not strata.get(need):
             raise MachineryError(f"stratum {need} never visited (vacuous)")
     ctx.log(f"{len(recs)} cases")
